@@ -226,7 +226,7 @@ var c11Flows = []string{"Validate", "ValidateWithConfiguration", "CompileProfile
 
 func init() {
 	Register(Meta{
-		ID: "C11", Level: "model_checking",
+		ID: "C11", Level: "model_checking", HangIsViolation: true,
 		Rule:        "model: per entry point an automaton over (next stage, started?, channel closed?, returned?, failed?) accepting exactly the prefixes of Start/Done pairs in pipeline order with the documented closing rule; all reachable model states are enumerated and self-checked. Conformance: 6 entry flows (Validate, ValidateWithConfiguration, CompileProfile alone, CompileProfile->ValidateCompiled, ->ValidateCompiledWithConfiguration, compile then two validations each with a new channel) x 18 faults (none x3, 6 profile faults in parsing, unknown prefix in generation, 2 in Rego compilation, 2 data parsing, 2 normalisation, evaluation error, empty result set from a caller-built query) x channel capacity {0,1,64} x consumer {collector, milestones.GenerateMilestonesFromEvents}: the observed event sequence, the closure (observed without timers: closing a closed channel panics) and the milestones are run through the automaton; each fault is first asserted to arise in its intended stage. Non-trivial = run with a fault; distinct by (flow, fault, capacity, consumer).",
 		Assumptions: []string{"a failing stage may or may not emit its completion event (the statement allows both)"},
 	}, func(tier string, emit func(c11Case)) {
